@@ -560,7 +560,7 @@ class AdaptivityResidual(AdaptivityBase):
             dt_planned = L.status.dt_new if L.status.dt_new is not None else L.params.dt
 
             if (
-                res > self.params.e_tol or (res > L.params.restol and self.params.use_restol)
+                res >= self.params.e_tol or (res > L.params.restol and self.params.use_restol)
             ) and 'decrease' in self.params.allowed_modifications:
                 L.status.dt_new = min([dt_planned, L.params.dt / 2.0])
                 self.log(f'Adjusting step size from {L.params.dt:.2e} to {L.status.dt_new:.2e}', S)
